@@ -56,7 +56,7 @@ def valid : Bytes → Bool
   | c :: rest =>
     if c < 0x80 then valid rest
     else
-      match h : seqLen (c :: rest) with
+      match _h : seqLen (c :: rest) with
       | some 2 => valid (rest.drop 1)
       | some 3 => valid (rest.drop 2)
       | some 4 => valid (rest.drop 3)
